@@ -319,7 +319,7 @@ func (w *World) MintTokens(q *MMintQuote, outs []Out, signature string) (cashu.B
 	}
 	var total uint64
 	for _, o := range outs {
-		total += o.Amount
+		total = satAdd(total, o.Amount)
 	}
 	q.Issuances++
 	q.IssuedAmounts = append(q.IssuedAmounts, total)
@@ -446,10 +446,10 @@ func (w *World) Swap(inputs cashu.Proofs, outs []Out) (cashu.BlindedSignatures, 
 		}
 	}
 	for _, o := range outs {
-		outSum += o.Amount
+		outSum = satAdd(outSum, o.Amount)
 	}
 	fee := w.FeeFor(inputs)
-	if outSum+fee > inSum {
+	if satAdd(outSum, fee) > inSum {
 		w.Flag("C02", "swap_outputs_exceed_inputs_minus_fee", "inputs %d (true value), fee %d, outputs %d", inSum, fee, outSum)
 	}
 	w.AcceptInputs("swap", inputs, Spent, -1)
@@ -574,6 +574,15 @@ func (w *World) MeltTokens(q *MMeltQuote, inputs cashu.Proofs) (storage.MeltQuot
 		q.State = nut05.Unpaid
 		if t := w.payTruth(q); t == lnmodel.TruthSucceeded || t == lnmodel.TruthInflight {
 			w.Flag("C05", "released_while_payment_"+t.String()+"|melt", "quote %d reported UNPAID but payment is %s", q.Idx, t)
+			// by the ground truth the inputs are paid for / locked: keep them so in the model, so that a later
+			// acceptance elsewhere is seen as the double spend it is
+			for _, in := range inputs {
+				if mp := w.M.Proofs[in.Secret]; mp != nil && mp.State == Unspent {
+					mp.State, mp.PendingQ, mp.SpentBy, mp.SpentWitness = Pending, q.Idx, "melt(payment "+t.String()+")", in.Witness
+				}
+			}
+			q.State = nut05.Pending
+			q.Inputs = secretsOf(inputs)
 		}
 	}
 	return r, nil
@@ -642,6 +651,8 @@ func (w *World) AdoptMeltState(q *MMeltQuote, st nut05.State, preimage, where st
 	case nut05.Unpaid:
 		if t == lnmodel.TruthSucceeded || t == lnmodel.TruthInflight {
 			w.Flag("C05", "released_while_payment_"+t.String()+"|"+where, "quote %d reported UNPAID but payment is %s", q.Idx, t)
+			// the model follows the ground truth: the inputs stay locked
+			return
 		}
 		q.State = nut05.Unpaid
 		for _, s := range q.Inputs {
@@ -870,4 +881,12 @@ func (w *World) RecordSignaturesKnown(op string, outs []Out, sigs cashu.BlindedS
 		ksigs = append(ksigs, sigs[i])
 	}
 	w.RecordSignatures(op, known, ksigs)
+}
+
+// satAdd adds with saturation at 2^64-1 (the model must not wrap where the code under test might).
+func satAdd(a, b uint64) uint64 {
+	if a+b < a {
+		return ^uint64(0)
+	}
+	return a + b
 }
